@@ -462,6 +462,13 @@ impl KotoVm {
 
     /// Provides the result of running a unary operation on a KValue
     pub fn run_unary_op(&mut self, op: UnaryOp, value: KValue) -> Result<KValue> {
+        let register_count = self.registers.len();
+        let result = self.run_unary_op_inner(op, value);
+        self.discard_op_registers_on_error(register_count, &result);
+        result
+    }
+
+    fn run_unary_op_inner(&mut self, op: UnaryOp, value: KValue) -> Result<KValue> {
         use UnaryOp::*;
 
         let old_frame_count = self.call_stack.len();
@@ -501,6 +508,13 @@ impl KotoVm {
 
     /// Provides the result of running a binary operation on a pair of Values
     pub fn run_binary_op(&mut self, op: BinaryOp, lhs: KValue, rhs: KValue) -> Result<KValue> {
+        let register_count = self.registers.len();
+        let result = self.run_binary_op_inner(op, lhs, rhs);
+        self.discard_op_registers_on_error(register_count, &result);
+        result
+    }
+
+    fn run_binary_op_inner(&mut self, op: BinaryOp, lhs: KValue, rhs: KValue) -> Result<KValue> {
         let old_frame_count = self.call_stack.len();
 
         let result_register = self.next_register();
@@ -578,6 +592,18 @@ impl KotoVm {
         container: KValue,
         read_arg: KValue,
     ) -> Result<KValue> {
+        let register_count = self.registers.len();
+        let result = self.run_read_op_inner(op, container, read_arg);
+        self.discard_op_registers_on_error(register_count, &result);
+        result
+    }
+
+    fn run_read_op_inner(
+        &mut self,
+        op: ReadOp,
+        container: KValue,
+        read_arg: KValue,
+    ) -> Result<KValue> {
         let old_frame_count = self.call_stack.len();
 
         let result_register = self.next_register();
@@ -612,6 +638,19 @@ impl KotoVm {
         write_arg: KValue,
         write_value: KValue,
     ) -> Result<KValue> {
+        let register_count = self.registers.len();
+        let result = self.run_write_op_inner(op, container, write_arg, write_value);
+        self.discard_op_registers_on_error(register_count, &result);
+        result
+    }
+
+    fn run_write_op_inner(
+        &mut self,
+        op: WriteOp,
+        container: KValue,
+        write_arg: KValue,
+        write_value: KValue,
+    ) -> Result<KValue> {
         let old_frame_count = self.call_stack.len();
 
         let result_register = self.next_register();
@@ -638,6 +677,14 @@ impl KotoVm {
         }
 
         self.get_overridden_op_result(old_frame_count, result_register)
+    }
+
+    // The `run_..._op` functions place their operands in temporary registers,
+    // which need to be discarded again when the operation returns early with an error.
+    fn discard_op_registers_on_error(&mut self, register_count: usize, result: &Result<KValue>) {
+        if result.is_err() {
+            self.registers.truncate(register_count);
+        }
     }
 
     fn get_overridden_op_result(
